@@ -97,6 +97,9 @@ func (c *Ctx) ob(rule, key string, n ast.Node, ok bool, detail string, nontrivia
 		key = key + "#" + strconv.Itoa(c.keyCount[k])
 	}
 	c.counts[rule]++
+	if d := os.Getenv("VERIF_DUMP"); d != "" && strings.HasPrefix(rule, d) && !c.mutating {
+		fmt.Fprintf(os.Stderr, "  DUMP %v %s %s: %s\n", ok, rule, key, detail)
+	}
 	c.obs = append(c.obs, Obligation{Rule: rule, Key: key, Pos: c.pos(n), OK: ok, Detail: detail, Nontrivial: nontrivial})
 }
 
